@@ -28,7 +28,7 @@ theorem dag_capacity_inv {net : Net} {s : NState} (h : Reachable net s) :
       a.heapLen ≤ sp.cap ∧ ∀ (i : Nat) (sb : ASub), a.subs[i]? = some sb → a.nSent ≤ sb.next + sp.cap ∧ sb.buffered ≤ sp.cap - 1 := by
   intro m sp a hsp ha
   have hi := (reach_inv h).1.mb m sp a hsp ha
-  refine ⟨by have := hi.back; simp only [AMB.heapLen]; omega, fun i sb hs => ⟨hi.backSub hs, (hi.sub i sb hs).2⟩⟩
+  refine ⟨by have := hi.back; simp only [AMB.heapLen]; omega, fun i sb hs => ⟨hi.backSub hs, (hi.sub i sb hs).2.1⟩⟩
 
 /-- REST BOUND for any graph, as an invariant: the sender of the first mailbox of a path is never more than `pathBound`
 messages ahead of what the reader at the end of the path (the consumer) has been handed -/
@@ -73,6 +73,17 @@ theorem dag_rest_bound_paused {net : Net} {s s' : NState} (h : Reachable net s) 
   have h1 := dag_rest_bound (reachable_run h σ hr) m0 links mk sk hp
   have h2 := dag_delivered_le_sent h m0 links mk sk hp
   exact ⟨hd, by rw [hd] at h1; omega⟩
+
+/-- THE GATE, any plugin graph, lazy mode (`senderOk net t m`, decidable: `t` is the only sender of mailbox `m` and
+goes through `gate m` before every message): whenever `t` is past the gate and has not put its message into `m` yet —
+that is, while it advances its source: reads its inputs, computes — and `m` has not been killed, some DRIVING
+subscriber of `m` is waiting for exactly the message that comes next (a number that is not in the buffer).  Holds for
+mailboxes with any number of driving and non-driving readers (the source mailbox of a diamond, saved types). -/
+theorem dag_lazy_gate {net : Net} {s : NState} (h : Reachable net s) (t m : Nat) (hok : senderOk net t m = true) :
+    ∀ (ts : TSt) (sp : MBSpec) (a : AMB), s.thr[t]? = some ts → net.mbs[m]? = some sp → s.mbs[m]? = some a →
+      ts.inEpi = false → armed m ts.prog = true → a.killed = false →
+      ∃ (i : Nat) (sb : ASub), sp.drive[i]? = some true ∧ a.subs[i]? = some sb ∧ sb.waiting = some sb.next ∧ sb.next = a.nSent :=
+  reach_gate h hok
 
 /-- QUIESCENCE IS REACHED, for every net, from every state, without any fairness assumption: (i) every schedule that does
 not run the consumer `c` is at most `s.measure` steps long (the measure of Lemmas/NetMeasure.lean decreases with every
@@ -152,6 +163,11 @@ def sidePath : List Link :=
 
 example : pathOk sideNet 3 sidePath 0 0 = true ∧ soleReader sideNet 6 0 0 = true ∧ pathBound sideNet 3 sidePath = 24 := by
   decide +kernel
+
+/-- the senders of the lazy net satisfy `senderOk`: build:ss → ss, divide_outputs:xx → MO_divide_outputs, the divider → xx
+(gated) — but not → yy (flow-freely: the divider does not gate on it) -/
+example : senderOk sideNet 3 3 = true ∧ senderOk sideNet 1 2 = true ∧ senderOk sideNet 2 1 = true ∧ senderOk sideNet 0 0 = true ∧
+    senderOk sideNet 2 4 = false := by decide +kernel
 
 /-- states with traffic are reachable: the source of the diamond has sent two chunks, nothing has reached the consumer -/
 example : (run? diamondNet (init diamondNet) [4, 4]).map (fun s => (sentInto s 3, delivered s 0 0)) = some (2, 0) := by
